@@ -305,6 +305,49 @@ Proof. exact sync_full_decomposes. Qed.
 Print Assumptions C19_sync_full_decomposes.
 
 (* ------------------------------------------------------------------------- *)
+(* round 3                                                                     *)
+(* ------------------------------------------------------------------------- *)
+
+(* the first pass does not depend on the resolution of the clock tick: refining every time,
+   tbin and delta_t by the same factor k > 0 gives the same index array *)
+Theorem C19_first_pass_tick_refinement_invariant : forall k, 0 < k -> forall thr delta tsa tsb,
+  first_pass (thr * k) (k * delta) (map (Z.mul k) tsa) (map (Z.mul k) tsb) = first_pass thr delta tsa tsb.
+Proof. exact first_pass_scaled. Qed.
+Print Assumptions C19_first_pass_tick_refinement_invariant.
+
+(* hence the rational first pass of sync_full is the integer first pass of sync whenever delta_t is a
+   whole number of ticks: the two entry points of the model describe one computation *)
+Theorem C19_first_pass_q_agrees_on_ticks : forall den tbin delta tsa tsb,
+  first_pass_q den tbin (tq den delta) tsa tsb = first_pass tbin delta tsa tsb.
+Proof. exact first_pass_q_ticks. Qed.
+Print Assumptions C19_first_pass_q_agrees_on_ticks.
+
+(* Second pass without jitter: if the first fitted map is the true map x |-> (1+d) x + o (it is, by
+   C19_fitted_map_exact_partial, as soon as the first-pass pairs are true and two of them differ),
+   tsa[i] = tau(la i), tsb[k] = (1+d) tau(lb k) + o, and distinct events are more than tbin apart on
+   clock b, then every new pair is a true correspondence and no true pair is left with both members
+   unpaired.  This discharges the hypothesis of C19_second_pass_sound_complete_partial in the exact case;
+   with jitter the accuracy of the first fit remains a measured quantity. *)
+Theorem C19_second_pass_exact_sound_complete :
+  forall (thr : Q) (f : a2b) (tsa tsb : list Q) (ib : list Z) (d o : Q) (tau : Z -> Q) (la lb : nat -> Z),
+  length ib = length tsa ->
+  (forall x, apply_a2b f x == (1 + d) * x + o)%Q ->
+  (forall i, (i < length tsa)%nat -> nth i tsa 0%Q == tau (la i))%Q ->
+  (forall k, (k < length tsb)%nat -> nth k tsb 0%Q == (1 + d) * tau (lb k) + o)%Q ->
+  (0 <= thr)%Q ->
+  (forall e e', e <> e' -> thr < Qabs ((1 + d) * (tau e - tau e')))%Q ->
+  (forall i k, (i < length ib)%nat -> nth i ib (-1) < 0 ->
+     nth i (second_pass thr f tsa tsb ib) (-1) = Z.of_nat k -> la i = lb k) /\
+  (forall i k, (i < length ib)%nat -> (k < length tsb)%nat -> la i = lb k ->
+     0 <= nth i (second_pass thr f tsa tsb ib) (-1) \/ In (Z.of_nat k) (second_pass thr f tsa tsb ib)).
+Proof.
+  intros thr f tsa tsb ib d o tau la lb Hlen Hf Ha Hb Hthr Hsep. split.
+  - exact (exact_second_pass_sound thr f tsa tsb ib d o tau la lb Hlen Hf Ha Hb Hthr Hsep).
+  - exact (exact_second_pass_complete thr f tsa tsb ib d o tau la lb Hlen Hf Ha Hb Hthr Hsep).
+Qed.
+Print Assumptions C19_second_pass_exact_sound_complete.
+
+(* ------------------------------------------------------------------------- *)
 (* the hypotheses are satisfiable: a concrete train (ticks of 1 ms)           *)
 (* ------------------------------------------------------------------------- *)
 (* events at 0, 1, 3, 7, 12, 20, 200 s; clock b = 1.001 * a + 5 s (drift 1000 ppm so that
@@ -368,3 +411,33 @@ Example ex_sync_full :
   | inl _ => False
   end.
 Proof. vm_compute. repeat split. Qed.
+
+(* round 3: satisfiability of the remaining hypotheses on concrete inputs *)
+Example ex_polyfit :   (* C19_polyfit_exact_affine: four points on y = 2 x + 1 *)
+  match polyfit1 [(0, 1); (1, 3); (2, 5); (5, 11)]%Q with
+  | Some (s, c) => Qeq_bool s 2 = true /\ Qeq_bool c 1 = true
+  | None => False
+  end.
+Proof. vm_compute. split; reflexivity. Qed.
+
+Example ex_spacing :   (* C19_first_pass_injective_of_spacing: a-events of ex_tsa are >= 2 tbin = 200 ticks apart *)
+  forallb (fun a => forallb (fun b => (a =? b) || (200 <=? Z.abs (a - b))) ex_tsa) ex_tsa = true.
+Proof. vm_compute. reflexivity. Qed.
+
+(* C19_first_pass_sound_complete_from_trains on ex_tsa / ex_tsb: L = -50 bins, ea = 0, eb0 = 200 ticks
+   (the 200 s event is 0.2 s off after the shift), events >= 2*100 + 0 + 200 = 400 ticks apart; the
+   unique-peak hypothesis is ex_unique_peak.  (Completeness needs 2 (ea + eb0) + 2 <= tbin, which fails here:
+   indeed the first pass misses the 200 s event, ex_first_pass.) *)
+Example ex_from_trains_hypotheses :
+  let t := fun k => nth (Z.to_nat k) [0; 1000; 3000; 7000; 12000; 20000; 200000] 0 in
+  forallb (fun p => Z.abs (nth (fst p) ex_tsa 0 - t (snd p)) <=? 0)
+          [(0%nat, 0); (1%nat, 1); (2%nat, 3); (3%nat, 4); (4%nat, 5); (5%nat, 6)] = true /\
+  forallb (fun p => Z.abs (nth (fst p) ex_tsb 0 + (-50) * 100 - t (snd p)) <=? 200)
+          [(0%nat, 0); (1%nat, 1); (2%nat, 2); (3%nat, 3); (4%nat, 5); (5%nat, 6)] = true /\
+  forallb (fun e => forallb (fun e' => (e =? e') || (400 <=? Z.abs (t e - t e'))) [0; 1; 2; 3; 4; 5; 6])
+          [0; 1; 2; 3; 4; 5; 6] = true.
+Proof. vm_compute. repeat split. Qed.
+
+Example ex_tick_refinement :   (* the same train in ticks of 1/3 ms *)
+  first_pass (100 * 3) (3 * -5010) (map (Z.mul 3) ex_tsa) (map (Z.mul 3) ex_tsb) = [0; 1; 3; -1; 4; -1].
+Proof. vm_compute. reflexivity. Qed.
